@@ -43,6 +43,16 @@ def gen_cases(rng, tier, corr, stats):
                 stats["ops"][fam] = stats["ops"].get(fam, 0) + 1
 
 
+def gen_corner_cases(rng, corr, stats):
+    """every entry point on the empty / one-byte / one-block corner of (adlen, mlen): the empty-AD and empty-message paths are separate code"""
+    for v, (klen, rate) in gen.AEAD_VARIANTS.items():
+        for fam in ("AE", "AEM", "AEC"):
+            for (alen, plen) in ((0, 0), (0, 1), (0, rate), (0, rate + 1), (1, 0), (rate, 0), (rate + 1, 1)):
+                k, n = gen.patterned(rng, klen), gen.patterned(rng, 16)
+                corr.one("%s %s ENC %s %s %s %s" % (fam, v, hx(k), hx(n), hx(gen.patterned(rng, alen, "rand")), hx(gen.patterned(rng, plen, "rand"))))
+                stats["ops"][fam + "-corner"] = stats["ops"].get(fam + "-corner", 0) + 1
+
+
 def run(res, tier, seed, replay=None):
     t0 = time.time()
     rng = random.Random(seed)
@@ -66,12 +76,15 @@ def run(res, tier, seed, replay=None):
         corr.session(json.load(open(replay))["replay"]["ops"])
     else:
         gen_cases(rng, tier, corr, stats)
+        gen_corner_cases(rng, corr, stats)
     configs = ["default", "c32"] if tier == "quick" else ["default", "c64", "c32", "directxor", "generic"]
+    # the masked entry points (AEM lines) have share-count-specific code: other (key, data, max) share builds as well
+    configs += [("c64", (2, 1, 2))] if tier == "quick" else [("c64", (2, 1, 2)), ("c32", (3, 1, 3)), ("default", (4, 4, 4)), ("c64", (3, 3, 3))]
     per = []
     with common.Scratch() as sc:
         b = stdflow.Builds(res, sc)
         for cfg in configs:
-            got = b.get(cfg)
+            got = b.get(*cfg) if isinstance(cfg, tuple) else b.get(cfg)
             if not got:
                 continue
             per.append(diffrun.compare(res, corr, driver, got[1], got[2]))
